@@ -156,7 +156,10 @@ def attribute(ev, cl, tags, trace):
     if op == "Acc":
         # the scalar look-up accessors: their purity is C06's claim; their values belong to no listed property (the
         # specification covers them all the same, see BEYOND below)
-        return {"C06"} if cl in ("frame", "noshare") else set()
+        if cl in ("frame", "noshare"):
+            return {"C06"}
+        # ... except on a scaled aggregator, which C08 promises to be a first-class aggregator like any other
+        return lineage & {"C08"}
     if op == "Doc":
         return {"C06"} if cl in ("frame", "noshare") else {"C04"} | lineage
     if op == "FromDoc":
